@@ -26,11 +26,14 @@ p = os.path.join(V, "selftest", "last_seeded.json")
 if os.path.exists(p):
     res = {r["seeded"]: r for r in json.load(open(p))}
     out.append("\n### 9.2 Independently seeded changes (/verif/seeded/<id>/, written by fresh sub-agents from the property text only)\n")
-    out.append("| id | what was changed | needs | caught by |\n|---|---|---|---|")
+    out.append("| id | what was changed | needs | caught by (quick tier, seeds tried) |\n|---|---|---|---|")
     for sid in sorted(os.listdir(os.path.join(V, "seeded"))):
         m = json.load(open(os.path.join(V, "seeded", sid, "meta.json")))
         r = res.get(sid, {})
-        out.append(f"| {sid} | {m.get('summary', '')[:230]} | {m.get('needs', '')[:200]} | {', '.join(r.get('caught_by', [])) or m.get('caught_note', '—')} |")
+        by = ', '.join(r.get('caught_by', [])) or m.get('caught_note', '—')
+        if r.get("seeds"):
+            by += f" ({len(r.get('caught_on_seeds', []))}/{len(r['seeds'])} seeds)"
+        out.append(f"| {sid} | {m.get('summary', '')[:230]} | {m.get('needs', '')[:200]} | {by} |")
 txt = open(os.path.join(V, "DESIGN.md")).read()
 gen = "<!-- BEGIN GENERATED -->\n" + "\n".join(out) + "\n<!-- END GENERATED -->"
 if "<!-- BEGIN GENERATED -->" in txt:
